@@ -555,7 +555,90 @@ def c09_9(ctx):
         w, var, acc.describe({}), w), fn, mod, key="enc-versions", detail={"witness_value": str(w)})]
 
 
+def c09_10(ctx):
+    """encode_base58: one leading `1` per *leading* zero byte.  The count must stop at the first non-zero byte (a loop that breaks, or
+    len(s) - len(s.lstrip(b"\\x00"))); counting zero bytes anywhere else (strip on both ends, count()) adds `1`s for payloads whose
+    checksum ends in 00 and the string no longer decodes to the payload"""
+    spec = "helper:encode_base58"
+    mod, fn = rl.get(ctx, spec)
+    cfg = cfg_of(fn)
+    # the name multiplied with "1"
+    cnt = None
+    for b in ast.walk(fn):
+        if isinstance(b, ast.BinOp) and isinstance(b.op, ast.Mult):
+            for x, y in ((b.left, b.right), (b.right, b.left)):
+                if isinstance(x, ast.Constant) and x.value == "1" and isinstance(y, ast.Name):
+                    cnt = y.id
+    if cnt is None:
+        return [ctx.err(spec, "the `\"1\" * count` prefix was not found", fn, mod)]
+    defs = [st for st in ast.walk(fn) if isinstance(st, (ast.Assign, ast.AugAssign)) and any(isinstance(t, ast.Name) and t.id == cnt for t in (st.targets if isinstance(st, ast.Assign) else [st.target]))]
+    txt = " ; ".join(ast.unparse(d) for d in defs)
+    calls = {c.func.attr for d in defs for c in ast.walk(d) if isinstance(c, ast.Call) and isinstance(c.func, ast.Attribute)}
+    if "lstrip" in calls and not ({"strip", "rstrip", "count"} & calls):
+        return [ctx.ok(spec, "leading zero bytes are counted as `%s`" % txt[:80], defs[0], mod, key="leading-zeros")]
+    if {"strip", "rstrip", "count"} & calls:
+        w = sorted({"strip", "rstrip", "count"} & calls)[0]
+        return [ctx.bad(spec, "the number of leading `1`s is computed with .%s() (`%s`), which also counts zero bytes at the end%s: a payload whose last checksum byte is 00 "
+                              "(1 in 256) gets extra `1`s and fails its own checksum when decoded" % (w, txt[:80], " and in the middle" if w == "count" else ""), defs[0], mod,
+                        key="leading-zeros")]
+    # loop form: an increment inside a loop over the bytes, with a break on the first non-zero byte
+    for lp in cfg.loops.values():
+        incs = [n for n in cfg.nodes if n.id in lp.body and isinstance(n.ast, ast.AugAssign) and isinstance(n.ast.target, ast.Name) and n.ast.target.id == cnt]
+        if not incs:
+            continue
+        has_break = any(isinstance(x, ast.Break) for x in ast.walk(lp.stmt))
+        if has_break:
+            return [ctx.ok(spec, "leading zero bytes are counted by a loop that stops at the first non-zero byte", lp.stmt, mod, key="leading-zeros")]
+        return [ctx.bad(spec, "the loop that counts zero bytes never stops: zero bytes after the first non-zero byte are counted as leading", lp.stmt, mod, key="leading-zeros")]
+    return [ctx.err(spec, "how `%s` is computed is not recognised: %s" % (cnt, txt[:80]), fn, mod)]
+
+
+def c09_11(ctx):
+    """TxOut.to_address maps a decoded segwit address to the scriptPubKey of *its* witness version: v0 with 20 / 32 bytes, v1 with
+    32 bytes, everything else is refused.  Cell evaluation over versions {0, 1, 2, 16} x program lengths {2, 20, 32, 40}; the bech32
+    decoder is a stand-in that returns the cell"""
+    from sa.cells import ClassRef, Evaluator, Obj, Raised, Undecided
+    spec = "tx:TxOut.to_address"
+    mod, fn = rl.get(ctx, spec)
+    want = {(0, 20): "P2WPKHScriptPubKey", (0, 32): "P2WSHScriptPubKey", (1, 32): "P2TRScriptPubKey"}
+    bad = None
+    n = 0
+    for version in (0, 1, 2, 16):
+        for ln in (2, 20, 32, 40):
+            h = bytes([7]) * ln
+
+            def opaque(name, args, kw, version=version, h=h):
+                if name == "decode_bech32":
+                    return ["mainnet", version, h]
+                return NotImplemented
+            n += 1
+            try:
+                r = Evaluator(ctx.repo, opaque=opaque).call(spec, ["bc1qexample", 1000], self_obj=ClassRef("tx", "TxOut"))
+                got = r.attrs.get("script_pubkey") if isinstance(r, Obj) else None
+                got = (got.cls, got.attrs.get("commands")) if isinstance(got, Obj) else ("?", None)
+            except Undecided as u:
+                return [ctx.err(spec, "segwit dispatch not evaluable for version %d, %d-byte program: %s" % (version, ln, u), fn, mod)]
+            except Raised as x:
+                got = ("raises", x.name)
+            exp = want.get((version, ln))
+            if exp is None and got[0] != "raises":
+                bad = "a witness v%d address with a %d-byte program is turned into %s %s instead of being refused: address -> scriptPubKey is no longer injective" % (
+                    version, ln, got[0], "(OP_%d ...)" % (got[1][0] - 0x50 if got[1] and isinstance(got[1][0], int) and got[1][0] > 0x50 else 0))
+            elif exp is not None and got[0] != exp:
+                bad = "a witness v%d address with a %d-byte program gives %s, expected %s" % (version, ln, got[0] if got[0] != "raises" else "an error (%s)" % got[1], exp)
+            if bad:
+                break
+        if bad:
+            break
+    ctx.count("cells", n)
+    if bad:
+        return [ctx.bad(spec, bad, fn, mod, key="segwit-dispatch")]
+    return [ctx.ok(spec, "v0/20 -> P2WPKH, v0/32 -> P2WSH, v1/32 -> P2TR, all other (version, length) cells refused (%d cells)" % n, fn, mod, key="segwit-dispatch")]
+
+
 OBLIGATIONS = [
+    ("C09.11", "CELLS dispatch", c09_11),
+    ("C09.10", "COUNT leading zeros", c09_10),
     ("C09.1", "GUARD", c09_1),
     ("C09.2", "GUARD+RANGE", c09_2),
     ("C09.3", "SIBLING", c09_3),
